@@ -236,7 +236,7 @@ GRAMMAR_TB = [
     "the theorem statements in lean/ScrutModel/Props being a faithful reading of the property",
     CORR,
     "hand-written model lean/ScrutModel/Model/Grammar.lean of RuleRegistry::to_expectation_regex (the regex written out as the string function it denotes under leftmost-first semantics), ExpectationMaker::extract/parse (capture-count logic incl. the index panic), RuleRegistry::make dispatch and Rule::to_expression_string; tied to the code by correspondence only",
-    "parameters of the model (theorems hold for all values): the regex crate's \\s class (only `\\s` matches the blank is assumed; the model's Unicode White_Space table is compared with the crate on U+0000-U+30FF), make+unmake of the escaped/glob/regex rules (subject of C04), the escaper (subject of C11), char::is_whitespace (std; the theorems assume only that every `\\s` character is white space for std, both are compared per code point); rule matching is a function of (kind, unmake expression) in the model, sampled by the match-equivalence oracle",
+    "parameters of the model (theorems hold for all values): the regex crate's \\s class (only `\\s` matches the blank is assumed; the model's Unicode White_Space table is compared with the crate on U+0000-U+30FF), make+unmake of the glob/regex rules and the escape-sequence resolution of the escaped rule (apply_escaped_filter_bytes; its ` (no-eol)` strip is modelled) (subject of C04), the escaper (subject of C11), char::is_whitespace (std; the theorems assume only that every `\\s` character is white space for std, both are compared per code point); rule matching is a function of (kind, unmake expression) in the model, sampled by the match-equivalence oracle",
     "the regex crate implementing leftmost-first semantics",
     RUSTC,
 ]
@@ -311,9 +311,9 @@ MANIFEST_TEXT = {
         "technique": "Lean 4 theorems on an executable model of generate_update over the C06 tokenizer model + differential correspondence (exhaustive small scope, random malformed, generated well-formed) + direct oracles",
     },
     "C08": {
-        "text": "Machine-checked (Lean 4, all lines without line feed, any \\s class, any rule constructors, any escaper): parse never panics and never reports an unknown kind; it fails only with the error of the escaped/glob/regex constructor on the expression in front of a final modifier (C08_total); the recognised modifier is exactly the documented final ` (<kind><quantifier>)` with everything before the white-space character verbatim (C08_grammar: Modifier <-> modifierOf, C08_extract, C08_modifier_parse incl. ?/*/+ flags), the decomposition is unique (C08_modifier_unique, C08_suffix_unique) and every other line incl. `foo ()` is equal for the whole line (C08_otherwise_equal). Round trip: for every expectation of every kind parse(to_expression_string e) gives e back with the same quantifier (equal with unprintable content as escaped) exactly when the rule constructor reproduces the expression from the rendered text (C08_roundtrip, C08_roundtrip_iff, C08_parse_render, C08_roundtrip_matches); no guard on the text's shape is left because ends_like_modifier over-approximates the grammar (C08_ends_like_modifier_sound; regression example C08_roundtrip_equal_modifier_shaped). PARTIAL in that the constructor contract is a hypothesis (subject of C04/C11) and is false in two known situations, both open findings: regex/no-eol expressions with unprintable characters, displayed through the escaper (decidable guard has_unprintable = false: C08_roundtrip_noEol_guarded, C08_roundtrip_noEol_iff, C08_roundtrip_fails_on_escaped_pattern_witness), and the ` (no-eol)` strip of the escaped constructor (C08_roundtrip_fails_on_witness). Tie to code: exhaustive token-alphabet lines, structured nested suffixes, random lines through the real parse/render/parse under both escapers; backwards-scanner oracle.",
+        "text": "Machine-checked (Lean 4, all lines without line feed, any \\s class, any rule constructors, any escaper): parse never panics and never reports an unknown kind; it fails only with the error of the escaped/glob/regex constructor on the expression in front of a final modifier (C08_total); the recognised modifier is exactly the documented final ` (<kind><quantifier>)` with everything before the white-space character verbatim (C08_grammar: Modifier <-> modifierOf, C08_extract, C08_modifier_parse incl. ?/*/+ flags), the decomposition is unique (C08_modifier_unique, C08_suffix_unique) and every other line incl. `foo ()` is equal for the whole line (C08_otherwise_equal). Round trip: for every expectation of every kind parse(to_expression_string e) gives e back with the same quantifier (equal with unprintable content as escaped) exactly when the rule constructor reproduces the expression from the rendered text (C08_roundtrip, C08_roundtrip_iff, C08_parse_render, C08_roundtrip_matches); no guard on the text's shape is left because ends_like_modifier over-approximates the grammar (C08_ends_like_modifier_sound; regression example C08_roundtrip_equal_modifier_shaped). The ` (no-eol)` strip of EscapedRule::make is part of the model; every text written under the escaped kind goes through guard_tailing_no_eol, never ends in ` (no-eol)` and is not stripped (C08_guard_never_stripped), so for it the contract is the pure unescape-inverts-escape contract (C08_roundtrip_escaped_iff; regression example C08_roundtrip_no_eol_guarded). PARTIAL in that the constructor/escaper contract is a hypothesis (subject of C04/C11) and is false in one known situation, an open finding: regex/no-eol expressions with unprintable characters, displayed through the escaper (decidable guard has_unprintable = false: C08_roundtrip_noEol_guarded, C08_roundtrip_noEol_iff, C08_roundtrip_fails_on_escaped_pattern_witness). Tie to code: exhaustive token-alphabet lines, structured nested suffixes, random lines through the real parse/render/parse under both escapers; backwards-scanner oracle.",
         "design_ref": "DESIGN.md §6 C08",
-        "note": "Open findings: C08:escaped-pattern-roundtrip (regex / no-eol expressions with unprintable characters -- under --escaper ascii any non-ASCII character -- are written through the escaper for display and read back literally: `a<TAB> (no-eol)` -> `a\\t (no-eol)`; no escaped syntax exists for these kinds) and C08:escaped-no-eol-strip-roundtrip (bytes ending in ` (no-eol)` do not survive being written as an escaped expectation, EscapedRule::make strips the suffix: `a<TAB> (no-eol) (equal)`, `foo (no-eol) (no-eol) (esc)`). Round-trip defects repaired by fix: 2c946ec (equal text ending like a modifier; glob written through the escaper; escaped with a literal backslash). Lines containing a line feed panic in parse (out of scope). `\\s` is Unicode white space (doc says a space): NBSP, TAB, U+3000 ... before the parenthesis also make a modifier. Defect repaired earlier by fix: d06722c (`foo ()`).",
+        "note": "Open finding C08:escaped-pattern-roundtrip (regex / no-eol expressions with unprintable characters -- under --escaper ascii any non-ASCII character -- are written through the escaper for display and read back literally: `a<TAB> (no-eol)` -> `a\\t (no-eol)`; no escaped syntax exists for these kinds). Round-trip defects repaired by fix: 2c946ec (equal text ending like a modifier; glob written through the escaper; escaped with a literal backslash) and c1bf05c (bytes ending in ` (no-eol)` written as an escaped expectation lost the suffix; regression class C08:escaped-no-eol-strip-roundtrip). Lines containing a line feed panic in parse (out of scope). `\\s` is Unicode white space (doc says a space): NBSP, TAB, U+3000 ... before the parenthesis also make a modifier. Defect repaired earlier by fix: d06722c (`foo ()`).",
         "technique": "Lean 4 theorems on a string-function model of the grammar regex + exhaustive differential correspondence + independent backwards-scanner oracle",
     },
     "C04": {
@@ -421,7 +421,7 @@ MANIFEST_TEXT = {
 }
 
 # properties whose machinery is merged but being brought up to date with fix commits: not claimed yet
-PENDING = {"C08", "C09", "C11"}
+PENDING = {"C09", "C11"}
 
 WIP = "not yet claimed: model, theorems and correspondence for this property are still being built (see DESIGN.md §11); nothing is asserted about it"
 NOT_APPLICABLE = [{"property_id": "C%02d" % i, "reason": WIP} for i in range(1, 21) if "C%02d" % i not in PROPS or "C%02d" % i in PENDING]
